@@ -1111,11 +1111,47 @@ package rtcp
 // TRUSTED (assumed, never proved); they are listed in every evidence file that uses them.
 // ===================================================================================================
 
-//@ func (x *ExtendedReport) Unmarshal(b []byte) (err error)
+//@ func (b *packetBuffer) read(v interface{}) (err error)
 //@   trusted
+//@   modifies b, v
+//@   keeps b.bytes
+//@   allocates[C01] 16*(old(len(b.bytes)) - len(b.bytes))
+//@   ensures suffix: isSuffix(b.bytes, old(b.bytes))
+//@   ensures xrheader: err == nil && isType(v, (*XRHeader)(nil)) ==> old(len(b.bytes)) >= 4 && len(b.bytes) == old(len(b.bytes)) - 4 && uint8(dyn(v, (*XRHeader)(nil)).BlockType) == old(b.bytes)[0] && dyn(v, (*XRHeader)(nil)).BlockLength == be16(old(b.bytes), 2)
+//@   ensures u32: err == nil && isType(v, (*uint32)(nil)) ==> len(b.bytes) == old(len(b.bytes)) - 4
+//@   ensures k1: err == nil && isType(v, (*LossRLEReportBlock)(nil)) ==> uint8(dyn(v, (*LossRLEReportBlock)(nil)).XRHeader.BlockType) == old(b.bytes)[0]
+//@   ensures k2: err == nil && isType(v, (*DuplicateRLEReportBlock)(nil)) ==> uint8(dyn(v, (*DuplicateRLEReportBlock)(nil)).XRHeader.BlockType) == old(b.bytes)[0]
+//@   ensures k3: err == nil && isType(v, (*PacketReceiptTimesReportBlock)(nil)) ==> uint8(dyn(v, (*PacketReceiptTimesReportBlock)(nil)).XRHeader.BlockType) == old(b.bytes)[0]
+//@   ensures k4: err == nil && isType(v, (*ReceiverReferenceTimeReportBlock)(nil)) ==> uint8(dyn(v, (*ReceiverReferenceTimeReportBlock)(nil)).XRHeader.BlockType) == old(b.bytes)[0]
+//@   ensures k5: err == nil && isType(v, (*DLRRReportBlock)(nil)) ==> uint8(dyn(v, (*DLRRReportBlock)(nil)).XRHeader.BlockType) == old(b.bytes)[0]
+//@   ensures k6: err == nil && isType(v, (*StatisticsSummaryReportBlock)(nil)) ==> uint8(dyn(v, (*StatisticsSummaryReportBlock)(nil)).XRHeader.BlockType) == old(b.bytes)[0]
+//@   ensures k7: err == nil && isType(v, (*VoIPMetricsReportBlock)(nil)) ==> uint8(dyn(v, (*VoIPMetricsReportBlock)(nil)).XRHeader.BlockType) == old(b.bytes)[0]
+//@   ensures k8: err == nil && isType(v, (*UnknownReportBlock)(nil)) ==> uint8(dyn(v, (*UnknownReportBlock)(nil)).XRHeader.BlockType) == old(b.bytes)[0]
+
+//@ func (b *packetBuffer) split(size int) (result packetBuffer)
+//@   safety[C01]
+//@   modifies b
+//@   keeps b.bytes
+//@   recv any
+//@   nocap
+//@   allocates[C01] 0
+//@   requires size >= 0
+//@   ensures[C01,C04] parts: sameSlice(result.bytes, old(b.bytes)[:min(size, old(len(b.bytes)))]) && isSuffix(b.bytes, old(b.bytes)) && len(b.bytes) == old(len(b.bytes)) - min(size, old(len(b.bytes)))
+
+//@ func (x *ExtendedReport) Unmarshal(b []byte) (err error)
+//@   safety[C01]
 //@   modifies *x
+//@   nocap
+//@   mathint
 //@   allocates[C01] 4096 + 64*len(b)
 //@   ensures[C07] type: err == nil ==> len(b) >= 4 && b[0]>>6 == 2 && b[1] == 207
+//@   ensures[C04] kinds: forall k :: err == nil && 0 <= k && k < len(x.Reports) ==> x.Reports[k] != nil && specXRKind(x.Reports[k])
+//@   loop 1
+//@     keeps buffer.bytes
+//@     invariant isSuffix(buffer.bytes, b) && len(b) >= 4 && unchanged(x.SenderSSRC)
+//@     invariant[C04] forall k :: 0 <= k && k < len(x.Reports) ==> x.Reports[k] != nil && specXRKind(x.Reports[k])
+//@     invariant[C01] allocated() <= 128 + 48*(len(b) - len(buffer.bytes))
+//@     decreases len(buffer.bytes)
 
 //@ func (x ExtendedReport) Marshal() (result []byte, err error)
 //@   trusted
@@ -1370,6 +1406,7 @@ package rtcp
 //@   recv any
 //@   allocates[C01] 0
 //@   ensures[C04,C16] t: b.T == uint8(old(b.XRHeader.TypeSpecific))&0x0F
+//@   ensures[C04] hdr: b.XRHeader == old(b.XRHeader)
 
 //@ func (b *DuplicateRLEReportBlock) setupBlockHeader()
 //@   safety[C09]
@@ -1384,6 +1421,7 @@ package rtcp
 //@   recv any
 //@   allocates[C01] 0
 //@   ensures[C04,C16] t: b.T == uint8(old(b.XRHeader.TypeSpecific))&0x0F
+//@   ensures[C04] hdr: b.XRHeader == old(b.XRHeader)
 
 //@ func (b *PacketReceiptTimesReportBlock) setupBlockHeader()
 //@   safety[C09]
@@ -1398,6 +1436,7 @@ package rtcp
 //@   recv any
 //@   allocates[C01] 0
 //@   ensures[C04,C16] t: b.T == uint8(old(b.XRHeader.TypeSpecific))&0x0F
+//@   ensures[C04] hdr: b.XRHeader == old(b.XRHeader)
 
 //@ func (b *StatisticsSummaryReportBlock) setupBlockHeader()
 //@   safety[C09]
@@ -1412,6 +1451,7 @@ package rtcp
 //@   recv any
 //@   allocates[C01] 0
 //@   ensures[C04,C16] bits: specStatSummaryBits(b.LossReports, b.DuplicateReports, b.JitterReports, b.TTLorHopLimit) == old(b.XRHeader.TypeSpecific)&0xF8
+//@   ensures[C04] hdr: b.XRHeader == old(b.XRHeader)
 
 //@ func (x *ExtendedReport) DestinationSSRC() (result []uint32)
 //@   safety[C10]
